@@ -23,7 +23,7 @@ import (
 type callPlan struct {
 	ID     string `json:"id"`
 	Cancel string `json:"cancel"` // none | pre | after-received | after-replied | deadline
-	Server string `json:"server"` // reply | late | never | close
+	Server string `json:"server"` // reply | late | never | close | push-reply | reply-push
 }
 type c10Case struct {
 	Callers [][]callPlan `json:"callers"`
@@ -81,6 +81,15 @@ func (s *c10Server) serve(c *memnet.Conn) {
 		switch action {
 		case "reply":
 			_, _ = c.Write(echoResponse(req))
+			closeOnce(rep)
+		case "push-reply":
+			// a server-originated request (which clients are documented to ignore) precedes the response
+			_, _ = c.Write(raw)
+			_, _ = c.Write(echoResponse(req))
+			closeOnce(rep)
+		case "reply-push":
+			_, _ = c.Write(echoResponse(req))
+			_, _ = c.Write(raw)
 			closeOnce(rep)
 		case "late":
 			go func() {
@@ -267,7 +276,7 @@ func c10Run(c c10Case) (sig string, err error) {
 			return "call-panics", fmt.Errorf("caller %d call %d: %s", r.Caller, r.Index, r.Err)
 		}
 		p := srv.plans[r.ID]
-		if r.Err != "" && p.Cancel == "none" && (p.Server == "reply" || p.Server == "late") {
+		if r.Err != "" && p.Cancel == "none" && (p.Server == "reply" || p.Server == "late" || p.Server == "push-reply" || p.Server == "reply-push") {
 			// an undisturbed call on a healthy server may only fail if an earlier call of another caller tore the shared connection down;
 			// the client retries on a fresh connection, so it must succeed
 			return "undisturbed-call-fails", fmt.Errorf("caller %d call %d (%s, server %s, no cancellation) failed: %s", r.Caller, r.Index, r.ID, p.Server, r.Err)
@@ -279,7 +288,7 @@ func c10Run(c c10Case) (sig string, err error) {
 func TestC10OwnResponse(t *testing.T) {
 	const name = "TestC10OwnResponse"
 	rec := evid.New("C10", name, "1..4 caller goroutines sharing one client, each issuing 1..4 calls with unique identifiers; per call a cancellation plan (none, context already cancelled, cancelled between send and receive once the server has read the request, "+
-		"cancelled once the server has written the reply, 15 ms deadline) and a server plan (reply at once, reply late - after the call was abandoned -, never reply, close the connection); the send/recv window is owned by the generator through the yield-point hook; real time, event driven; "+
+		"cancelled once the server has written the reply, 15 ms deadline) and a server plan (reply at once, reply late - after the call was abandoned -, never reply, close the connection, send a server-originated request before or after the reply); the send/recv window is owned by the generator through the yield-point hook; real time, event driven; "+
 		"oracle: every call returns within 30 s with an error or the response echoing its own identifier, undisturbed calls succeed; non-trivial = a call cancelled mid-exchange is followed by a later call, or >= 2 callers; distinct by case").Attach(t)
 	if rp := evid.LoadReplay(name); rp != nil {
 		var c c10Case
@@ -307,7 +316,7 @@ func TestC10OwnResponse(t *testing.T) {
 				p.Cancel = rapid.SampledFrom([]string{"none", "none", "none", "pre", "after-received", "after-replied", "after-replied", "deadline"}).Draw(rt, "cancel")
 				switch p.Cancel {
 				case "none", "pre":
-					p.Server = rapid.SampledFrom([]string{"reply", "reply", "late", "close"}).Draw(rt, "server")
+					p.Server = rapid.SampledFrom([]string{"reply", "reply", "late", "close", "push-reply", "reply-push"}).Draw(rt, "server")
 				case "after-received":
 					p.Server = rapid.SampledFrom([]string{"late", "never", "reply"}).Draw(rt, "server")
 				case "after-replied":
